@@ -462,6 +462,15 @@ class Check:
                     tr = pytrans.Translator(known={}, given=dep["given"], omitted=dep.get("omitted", ()))
                     defs.append(tr.function(pytrans.source_of(dep["file"]), dep["py"], "tr_" + dep["name"], dep["params"]))
                     known[dep["py"]] = ("tr_" + dep["name"], 1)
+                if "summand" in t:       # summand of a delay-and-sum accumulation loop
+                    str_ = pytrans.SummandTranslator()
+                    defs.append(str_.summand(pytrans.source_of(t["file"]), t["py"], "tr_" + t["name"], [tuple(x) for x in t["summand"]]))
+                    bind = "(v_numsamples : Z) " + " ".join(f"(v_{a} : {k})" for a, k in t["summand"])
+                    lemma = (f"Lemma tie_{t['name']} : forall (T D : Type) (N : Num T) (V : Data T D) {bind} (r : prow T D) (s : scan D),\n"
+                             f"  tr_{t['name']} N V v_numsamples {' '.join('v_' + a for a, _ in t['summand'])} r s = {t['model']}.\n"
+                             "Proof. intros. reflexivity. Qed.\n")
+                    texts[t["name"]] = tt.IMPORTS + "\n".join(defs) + "\n" + lemma
+                    continue
                 if "kparams" in t:       # typed kernel (floats and integers, matrix parameters)
                     ktr = pytrans.KernelTranslator(matrices=t.get("matrices", {}))
                     defs.append(ktr.function(pytrans.source_of(t["file"]), t["py"], "tr_" + t["name"], [tuple(x) for x in t["kparams"]]))
@@ -482,6 +491,17 @@ class Check:
                 res[t["name"]] = f"untranslatable: {e}"
             except Exception as e:  # noqa: BLE001  (source file missing, function renamed ...)
                 res[t["name"]] = f"untranslatable: {type(e).__name__}: {e}"
+        # all ties of the property in ONE coqc call (each in its own module); one call per tie only if that fails
+        if len(texts) > 1:
+            combined = tt.IMPORTS + "\n".join(
+                f"Module Tie_{name}.\n{text[len(tt.IMPORTS):]}\nEnd Tie_{name}.\n" for name, text in texts.items())
+            try:
+                self.coq_eval("tie_all", combined, timeout=600)
+                for name in texts:
+                    res[name] = "ok"
+                texts = {}
+            except RuntimeError:
+                pass
         for name, text in texts.items():
             try:
                 self.coq_eval(f"tie_{name}", text, timeout=300)
